@@ -554,3 +554,88 @@ MUTANTS += [
             raise ValueError('Asset is already part of the model.')
 """, "", 'revert 42afa54 (assets)'),
 ]
+
+# ---- fault paths: errors must not be swallowed ---------------------------------------
+MUTANTS += [
+    ('save_json_swallows_oserror', ['C07', 'C10'], FU,
+     """    with open(filename, 'w', encoding='utf-8') as f:
+        json.dump(serialized_object, f, indent=4)""",
+     """    try:
+        with open(filename, 'w', encoding='utf-8') as f:
+            json.dump(serialized_object, f, indent=4)
+    except OSError as e:
+        print(f'could not write {filename}: {e}')""", 'a failed JSON save is only reported on stdout'),
+    ('save_yaml_swallows_close_error', ['C07'], FU,
+     """    with open(filename, 'w', encoding='utf-8') as f:
+        yaml.dump(serialized_object, f, Dumper=yaml.SafeDumper)""",
+     """    f = open(filename, 'w', encoding='utf-8')
+    yaml.dump(serialized_object, f, Dumper=yaml.SafeDumper)
+    try:
+        f.close()
+    except OSError:
+        pass""", 'an error at close() of a YAML save is ignored (the data may not be on disk)'),
+    ('load_json_retries_as_empty', ['C07'], FU,
+     """    with open(filename, 'r', encoding='utf-8') as file:
+        object_dict = json.loads(file.read())
+    return object_dict""",
+     """    try:
+        with open(filename, 'r', encoding='utf-8') as file:
+            object_dict = json.loads(file.read())
+    except OSError:
+        object_dict = {'metadata': {'name': 'unreadable'}, 'assets': {}, 'attack_steps': {},
+                       'attackers': {}}
+    return object_dict""", 'an unreadable file loads as an empty model / graph'),
+    ('neo_commit_error_swallowed', ['C19'], N4,
+     """    subgraph = Subgraph(list(nodes.values()), rels)
+
+    tx = g.begin()
+    tx.create(subgraph)
+    g.commit(tx)
+
+
+def get_model(""",
+     """    subgraph = Subgraph(list(nodes.values()), rels)
+
+    tx = g.begin()
+    tx.create(subgraph)
+    try:
+        g.commit(tx)
+    except Exception as e:
+        logger.error('commit failed: %s', e)
+
+
+def get_model(""", 'ingest_model logs a failed commit and returns normally'),
+    ('neo_delete_error_ignored', ['C19'], N4,
+     """    g = Graph(uri=uri, user=username, password=password, name=dbname)
+    if delete:
+        g.delete_all()
+
+    nodes = {}
+    rels = []
+
+    for asset in model.assets:""",
+     """    g = Graph(uri=uri, user=username, password=password, name=dbname)
+    if delete:
+        try:
+            g.delete_all()
+        except Exception:
+            logger.warning('could not clear the database, appending')
+
+    nodes = {}
+    rels = []
+
+    for asset in model.assets:""", 'a failed delete_all is ignored: new content is appended to the old'),
+]
+
+MUTANTS += [
+    ('updater_unreadable_file_is_empty_model', ['C18'], UP,
+     """        with open(filename, 'r', encoding='utf-8') as model_file:
+            model_dict = json.loads(model_file.read())
+""",
+     """        try:
+            with open(filename, 'r', encoding='utf-8') as model_file:
+                model_dict = json.loads(model_file.read())
+        except OSError:
+            model_dict = {'metadata': {'name': filename}, 'assets': {}}
+""", 'the 0.0.39 loader turns an unreadable file into an empty model'),
+]
